@@ -1,4 +1,5 @@
 import GqlVerif.Proofs.C07PermCodegenB
+import GqlVerif.Proofs.CalcVariantsPushed
 /-!
 # C07 / P31 (part C) — the `calc*` block under a renumbering of the type ids
 
@@ -47,6 +48,39 @@ theorem tSels_single (R : Ren) (sub : List Sel) (g : Nat) : tSels R sub = [Sel.s
     cases xs with
     | nil => cases x <;> simp [tSels, tSel]
     | cons y ys => simp [tSels]
+
+/-- (P41) whether a selection pushes a field for the struct of type `vt` is invariant under the renumbering -/
+theorem selPushes_t {R : Ren} (hR : R.Inj) (q : Query) (vt : TypeId) (x : Sel) :
+    selPushes (tQ R q) (R.tid vt) (tSel R x) = selPushes q vt x := by
+  cases x with
+  | field a fid sub => rw [tSel]; rfl
+  | spread g =>
+    rw [tSel]
+    simp only [selPushes, tQ_fragments, List.getElem?_map]
+    cases q.fragments[g]? with
+    | none => rfl
+    | some f => simp only [Option.map_some, tFrag_on, hR.tid_beq]
+  | inline t' sub => rw [tSel]; rfl
+  | typename => rfl
+
+/-- (P41) `has_fields` of a variant struct is invariant under the renumbering of the type ids -/
+theorem pushedAny_t {R : Ren} (hR : R.Inj) (q : Query) (vt : TypeId) : ∀ mine : List VariantSel,
+    pushedAny (tQ R q) (R.tid vt) (mine.map (tV R)) = pushedAny q vt mine
+  | [] => rfl
+  | .spread g fr :: rest => by
+    rw [List.map_cons, tV, Pushed.pushedAny_spread, Pushed.pushedAny_spread]
+  | .inline t' sub :: rest => by
+    rw [List.map_cons, tV]
+    by_cases hsp : ∃ g, sub = [Sel.spread g]
+    · obtain ⟨g, rfl⟩ := hsp
+      rw [show tSels R [Sel.spread g] = [Sel.spread g] from rfl, Pushed.pushedAny_inline_lone,
+        Pushed.pushedAny_inline_lone, pushedAny_t hR q vt rest]
+    · rw [Pushed.pushedAny_inline _ _ _ _ (fun g hg => hsp ⟨g, (tSels_single R sub g).1 hg⟩),
+        Pushed.pushedAny_inline _ _ _ _ (fun g hg => hsp ⟨g, hg⟩), pushedAny_t hR q vt rest, tSels_eq_map,
+        List.any_map]
+      congr 2
+      funext x
+      exact selPushes_t hR q vt x
 
 theorem variantSelOf_t {R : Ren} (hR : R.Inj) (q : Query) (ty : TypeId) (x : Sel) :
     variantSelOf (tQ R q) (R.tid ty) (tSel R x) = (variantSelOf q ty x).map (Option.map (tV R)) := by
@@ -122,11 +156,11 @@ def oneV (c : Ctx) (fuel : Nat) (pfx : String) (vsels : List VariantSel) (vt : T
     | some (fid, f) => pure (v, [aliasItem sname f.name (fragmentIsRecursive c.q fid)])
     | none => do
       let r ← calcVariantSels c fuel sname pfx vt mine
-      match r.1, r.2.2 with
-      | [], [a] => pure (v, a :: r.2.1)
-      | fs, als => do
+      match pushedAny c.q vt mine, r.2.2 with
+      | false, [a] => pure (v, a :: r.2.1)
+      | _, als => do
         let extra ← als.mapM (aliasMember c)
-        pure (v, renderType c sname (fs ++ extra.flatten) [] ++ r.2.1)
+        pure (v, renderType c sname (r.1 ++ extra.flatten) [] ++ r.2.1)
 
 theorem calcVariants_succ (c : Ctx) (fuel : Nat) (name pfx : String) (vsels : List VariantSel) (vt : TypeId)
     (rest : List TypeId) :
@@ -146,14 +180,16 @@ theorem calcVariants_succ (c : Ctx) (fuel : Nat) (name pfx : String) (vsels : Li
         congr 1
         funext r
         obtain ⟨fs, items, als⟩ := r
-        rcases fs with _ | ⟨f1, fs⟩ <;> rcases als with _ | ⟨a, _ | ⟨a2, als⟩⟩ <;>
+        generalize pushedAny c.q vt _ = b
+        rcases b with _ | _ <;> rcases als with _ | ⟨a, _ | ⟨a2, als⟩⟩ <;>
           (try simp only [bind_assoc]) <;> rfl
       · rfl
     · simp only [bind_assoc]
       congr 1
       funext r
       obtain ⟨fs, items, als⟩ := r
-      rcases fs with _ | ⟨f1, fs⟩ <;> rcases als with _ | ⟨a, _ | ⟨a2, als⟩⟩ <;>
+      generalize pushedAny c.q vt _ = b
+      rcases b with _ | _ <;> rcases als with _ | ⟨a, _ | ⟨a2, als⟩⟩ <;>
         (try simp only [bind_assoc]) <;> rfl
 
 /-! ## the four statements -/
@@ -305,25 +341,26 @@ theorem jstep3 (f : Nat) (H3 : J3 (R := R) (t := t) c f) (H4 : J4 (R := R) (t :=
 theorem jstepV (f : Nat) (H3 : J3 (R := R) (t := t) c f) : JV (R := R) (t := t) c f := by
   intro pfx vsels vt f'
   unfold oneV
-  simp only [tC_s, tC_q, h.typeName, filter_tV h.inj, renderType_tC, aliasMember_tC, fragmentIsRecursive_t]
+  simp only [tC_s, tC_q, h.typeName, filter_tV h.inj, pushedAny_t h.inj, renderType_tC, aliasMember_tC,
+    fragmentIsRecursive_t]
   refine ResF.bind_same _ (fun vname => ?_)
   generalize List.filter (fun v => v.typeId == vt) vsels = mine
   have body : ∀ mine : List VariantSel,
       ResF RelV
         (calcVariantSels c f (pfx ++ "On" ++ vname) pfx vt mine >>= fun r =>
-          match r.1, r.2.2 with
-          | [], [a] => pure (({ name := vname, payload := some (.path (pfx ++ "On" ++ vname)) } : RVariant), a :: r.2.1)
-          | fs, als => do
+          match pushedAny c.q vt mine, r.2.2 with
+          | false, [a] => pure (({ name := vname, payload := some (.path (pfx ++ "On" ++ vname)) } : RVariant), a :: r.2.1)
+          | _, als => do
             let extra ← als.mapM (aliasMember c)
             pure (({ name := vname, payload := some (.path (pfx ++ "On" ++ vname)) } : RVariant),
-              renderType c (pfx ++ "On" ++ vname) (fs ++ extra.flatten) [] ++ r.2.1))
+              renderType c (pfx ++ "On" ++ vname) (r.1 ++ extra.flatten) [] ++ r.2.1))
         (calcVariantSels (tC R t c) f' (pfx ++ "On" ++ vname) pfx (R.tid vt) (mine.map (tV R)) >>= fun r =>
-          match r.1, r.2.2 with
-          | [], [a] => pure (({ name := vname, payload := some (.path (pfx ++ "On" ++ vname)) } : RVariant), a :: r.2.1)
-          | fs, als => do
+          match pushedAny c.q vt mine, r.2.2 with
+          | false, [a] => pure (({ name := vname, payload := some (.path (pfx ++ "On" ++ vname)) } : RVariant), a :: r.2.1)
+          | _, als => do
             let extra ← als.mapM (aliasMember c)
             pure (({ name := vname, payload := some (.path (pfx ++ "On" ++ vname)) } : RVariant),
-              renderType c (pfx ++ "On" ++ vname) (fs ++ extra.flatten) [] ++ r.2.1)) := by
+              renderType c (pfx ++ "On" ++ vname) (r.1 ++ extra.flatten) [] ++ r.2.1)) := by
     intro mine
     refine ResF.bind (H3 _ pfx vt mine f') (fun r r' hr => ?_)
     obtain ⟨fs, items, als⟩ := r
@@ -331,7 +368,8 @@ theorem jstepV (f : Nat) (H3 : J3 (R := R) (t := t) c f) : JV (R := R) (t := t) 
     obtain ⟨h1, h2, h3⟩ := hr
     simp only at h1 h2 h3
     subst h1 h3
-    rcases fs' with _ | ⟨f1, fs⟩ <;> rcases als' with _ | ⟨a, _ | ⟨a2, als⟩⟩ <;> simp only []
+    generalize pushedAny c.q vt mine = b
+    rcases b with _ | _ <;> rcases als' with _ | ⟨a, _ | ⟨a2, als⟩⟩ <;> simp only []
     all_goals first
       | exact ResF.pure ⟨rfl, .cons (.refl _) h2⟩
       | (refine ResF.bind_same _ (fun extra => ?_)
